@@ -536,7 +536,7 @@ theorem liftToType_step (t : List Char) (c : Location) (l0 l1 : Level) (up : Cha
       | error e => rw [hm] at h; simp at h
       | ok m =>
         rw [hm] at h
-        exact ⟨hce, p, m, rfl, rfl, h⟩
+        exact ⟨hce, p, m, rfl, hm, h⟩
 
 theorem liftToType_hit (t : List Char) (c : Location) (l0 : Level) (rest : Chain) (r : Location × Chain)
     (h0 : (l0.type == t) = true) (h : liftToType t c (l0 :: rest) = .ok r) : r.1 = c := by
@@ -546,8 +546,389 @@ theorem liftToType_hit (t : List Char) (c : Location) (l0 : Level) (rest : Chain
   · simp [throw, throwThe, MonadExceptOf.throw] at h
   · split at h
     · simp [throw, throwThe, MonadExceptOf.throw] at h
-    · simp only [h0, if_true, pure, Except.pure] at h
+    · simp only [pure, Except.pure] at h
       injection h with h
       rw [← h]
+
+/-! ### E. the spec predicate, unfolded -/
+
+def tgtWin (G : List Char) (tgt : Option (Blk × Strand)) : Blk :=
+  match tgt with | some t => t.1 | none => (0, G.length)
+def tgtStrand (tgt : Option (Blk × Strand)) : Strand :=
+  match tgt with | some t => t.2 | none => Strand.plus
+
+def specS2 (tx : Option Location) (w1 : Blk) : Bool :=
+  match tx with
+  | some t => t == Location.empty || (locationBlocks t).any (fun r => w1.2 - w1.1 < r.2)
+  | none => false
+
+def specLen0 (tx : Option Location) (w1 : Blk) : Nat :=
+  match tx with | some t => (locationBases t).length | none => w1.2 - w1.1
+
+/-- the clauses about an answer once the composed list is known -/
+def okFinal (G : List Char) (w2 : Blk) (s2 : Strand) (c : Location) (places : List (Option Location))
+    (want : List Nat) (wst : Strand) (a : Option (Location × List Char)) : Bool :=
+  let inside := want.filter (inW w2)
+  let expect := inside.map (toT w2 s2)
+  match a with
+  | none => false
+  | some (m, letters) =>
+    if inside.isEmpty then m == Location.empty
+    else
+      let exact := allNonOverlap c places ∧ wst ≠ Strand.unstranded ∧ strandOf c ≠ Strand.unstranded
+      m != Location.empty && wfLocation m &&
+      locationStrand? m == some (compose wst s2) &&
+      (if exact then locationBases m == expect else sortNat (locationBases m) == sortNat expect) &&
+      (locationBlocks m).all (fun r => r.2 ≤ w2.2 - w2.1) &&
+      (if exact then readSeq G inside wst == some letters else true)
+
+theorem okRelocate_unfold (G : List Char) (w1 : Blk) (s1 : Strand) (tx : Option Location) (c : Location)
+    (tgt : Option (Blk × Strand)) (a : Option (Location × List Char)) :
+    okRelocate G w1 s1 tx c tgt a =
+      if w1.2 ≤ w1.1 ∨ (tgtWin G tgt).2 ≤ (tgtWin G tgt).1 ∨ tgtStrand tgt = Strand.unstranded then true
+      else if G.length < w1.2 ∨ G.length < (tgtWin G tgt).2 then a.isNone
+      else if specS2 tx w1 then a.isNone
+      else if (locationBlocks c).any (fun r => specLen0 tx w1 < r.2) then a.isNone
+      else if c == Location.empty then (match a with | none => true | some x => x.1 == Location.empty)
+      else if (locationBases c).isEmpty ∧ a.isNone then true
+      else match composeLevels (locationBases c) (strandOf c) (placesOf tx w1 s1) with
+        | none => a.isNone
+        | some (want, wst) =>
+          if wst = Strand.unstranded ∧ a.isNone then true
+          else okFinal G (tgtWin G tgt) (tgtStrand tgt) c (placesOf tx w1 s1) want wst a := by
+  rfl
+
+section verdicts
+variable (G : List Char) (w1 : Blk) (s1 : Strand) (tx : Option Location) (c : Location)
+  (tgt : Option (Blk × Strand))
+
+theorem okRel_degenerate (a : Option (Location × List Char))
+    (h : w1.2 ≤ w1.1 ∨ (tgtWin G tgt).2 ≤ (tgtWin G tgt).1 ∨ tgtStrand tgt = Strand.unstranded) :
+    okRelocate G w1 s1 tx c tgt a = true := by
+  rw [okRelocate_unfold, if_pos h]
+
+/-- a refusal is accepted as soon as one of the listed reasons holds -/
+theorem okRel_none
+    (h : G.length < w1.2 ∨ G.length < (tgtWin G tgt).2 ∨ specS2 tx w1 = true ∨
+      (locationBlocks c).any (fun r => specLen0 tx w1 < r.2) = true ∨ c = Location.empty ∨
+      locationBases c = [] ∨ composeLevels (locationBases c) (strandOf c) (placesOf tx w1 s1) = none ∨
+      ∃ want, composeLevels (locationBases c) (strandOf c) (placesOf tx w1 s1) = some (want, Strand.unstranded)) :
+    okRelocate G w1 s1 tx c tgt none = true := by
+  rw [okRelocate_unfold]
+  split
+  · rfl
+  split
+  · rfl
+  split
+  · rfl
+  split
+  · rfl
+  split
+  · rfl
+  split
+  · rfl
+  rename_i h1 h2 h3 h4 h5 h6
+  rcases h with h | h | h | h | h | h | h | ⟨want, h⟩
+  · exact absurd (Or.inl h) h2
+  · exact absurd (Or.inr h) h2
+  · exact absurd h h3
+  · exact absurd h h4
+  · subst h; simp at h5
+  · rw [h] at h6; simp at h6
+  · rw [h]; rfl
+  · rw [h]; simp
+
+theorem okRel_some (m : Location) (letters : List Char) (want : List Nat) (wst : Strand)
+    (hD : ¬ (w1.2 ≤ w1.1 ∨ (tgtWin G tgt).2 ≤ (tgtWin G tgt).1 ∨ tgtStrand tgt = Strand.unstranded))
+    (hS1 : ¬ (G.length < w1.2 ∨ G.length < (tgtWin G tgt).2)) (hS2 : specS2 tx w1 = false)
+    (hS3 : (locationBlocks c).any (fun r => specLen0 tx w1 < r.2) = false) (hce : c ≠ Location.empty)
+    (hcl : composeLevels (locationBases c) (strandOf c) (placesOf tx w1 s1) = some (want, wst))
+    (hfin : okFinal G (tgtWin G tgt) (tgtStrand tgt) c (placesOf tx w1 s1) want wst (some (m, letters)) = true) :
+    okRelocate G w1 s1 tx c tgt (some (m, letters)) = true := by
+  have hb : (c == Location.empty) = false := by simpa using hce
+  rw [okRelocate_unfold, if_neg hD, if_neg hS1, hS2, hS3, hb, hcl]
+  simp only [Bool.false_eq_true, if_false, Option.isNone_some, and_false]
+  exact hfin
+
+end verdicts
+
+/-! ### F. the final stage: onto the target, and the letters -/
+
+theorem okFinal_empty (G : List Char) (w2 : Blk) (s2 : Strand) (c : Location) (places : List (Option Location))
+    (want : List Nat) (wst : Strand) (l : List Char) (h : want.filter (inW w2) = []) :
+    okFinal G w2 s2 c places want wst (some (Location.empty, l)) = true := by
+  simp [okFinal, h]
+
+theorem okFinal_loc (G : List Char) (w2 : Blk) (s2 : Strand) (c : Location) (places : List (Option Location))
+    (want : List Nat) (wst : Strand) (m : Location) (letters : List Char)
+    (hne : want.filter (inW w2) ≠ []) (hm : m ≠ Location.empty) (hwf : wfLocation m = true)
+    (hst : locationStrand? m = some (compose wst s2))
+    (hperm : (locationBases m).Perm ((want.filter (inW w2)).map (toT w2 s2)))
+    (hexact : allNonOverlap c places = true → wst ≠ Strand.unstranded → strandOf c ≠ Strand.unstranded →
+      locationBases m = (want.filter (inW w2)).map (toT w2 s2) ∧
+      readSeq G (want.filter (inW w2)) wst = some letters)
+    (hfit : ∀ r ∈ locationBlocks m, r.2 ≤ w2.2 - w2.1) :
+    okFinal G w2 s2 c places want wst (some (m, letters)) = true := by
+  have he : (want.filter (inW w2)).isEmpty = false := by simpa using hne
+  have hmb : (m != Location.empty) = true := by simpa using hm
+  have hfit' : (locationBlocks m).all (fun r => decide (r.2 ≤ w2.2 - w2.1)) = true := by
+    rw [List.all_eq_true]; intro r hr; simpa using hfit r hr
+  simp only [okFinal, he, Bool.false_eq_true, if_false, hmb, hwf, hst, beq_self_eq_true, Bool.true_and, hfit',
+    Bool.and_true, Bool.and_eq_true]
+  by_cases hx : allNonOverlap c places = true ∧ wst ≠ Strand.unstranded ∧ strandOf c ≠ Strand.unstranded
+  · obtain ⟨e1, e2⟩ := hexact hx.1 hx.2.1 hx.2.2
+    rw [if_pos hx, if_pos hx]
+    exact ⟨by simpa using e1, by simpa using e2⟩
+  · rw [if_neg hx, if_neg hx]
+    exact ⟨by simpa using sortNat_perm hperm, rfl⟩
+
+/-- what the way up delivers about the chromosome-coordinate location -/
+structure UpOK (c : Location) (places : List (Option Location)) (want : List Nat) (wst : Strand)
+    (up : Location) : Prop where
+  wf : wfLocation up = true
+  st : locationStrand? up = some wst
+  perm : (locationBases up).Perm want
+  exact : allNonOverlap c places = true → wst ≠ Strand.unstranded → locationBases up = want
+
+/-- outcome of the final stage: a refusal only for an undirected child, otherwise an accepted answer -/
+def FinalOK (G : List Char) (w2 : Blk) (s2 : Strand) (c : Location) (places : List (Option Location))
+    (want : List Nat) (wst : Strand) (x : R (Location × List Char)) : Prop :=
+  (wst = Strand.unstranded ∧ ans x = none) ∨
+  (∃ m letters, x = .ok (m, letters) ∧ okFinal G w2 s2 c places want wst (some (m, letters)) = true)
+
+theorem compose_unstranded_left (b : Strand) : compose .unstranded b = .unstranded := by cases b <;> rfl
+theorem compose_plus_right (a : Strand) : compose a .plus = a := by cases a <;> rfl
+theorem compose_dir (a b : Strand) (ha : a ≠ .unstranded) (hb : b ≠ .unstranded) : compose a b ≠ .unstranded := by
+  cases a <;> cases b <;> simp [compose] at ha hb ⊢
+
+theorem want_mono (c : Location) (hc : WF c) (hce : c ≠ .empty) (places : List (Option Location))
+    (hpl : ∀ q ∈ places, ∀ x, q = some x → WF x) (want : List Nat) (wst : Strand)
+    (hcl : composeLevels (locationBases c) (strandOf c) places = some (want, wst))
+    (hall : allNonOverlap c places = true) (hw : wst ≠ .unstranded) :
+    if wst = .minus then Desc want else Asc want := by
+  simp only [allNonOverlap, Bool.and_eq_true, List.all_eq_true] at hall
+  have hcv := wfLocation_valid c ((wf_iff c).mp hc)
+  have m1 := bases_mono (locationBlocks c) (strandOf c) hcv hall.1
+  rw [← locationBases_eq c _ (locationStrand_of_ne c hce)] at m1
+  refine composeLevels_mono places _ _ want wst hcl hw ?_ m1
+  intro q hq x hx
+  refine ⟨hpl q hq x hx, ?_⟩
+  have := hall.2 q hq
+  rw [hx] at this
+  exact this
+
+theorem mono_toT (w2 : Blk) (s2 : Strand) (hs2 : s2 = .plus ∨ s2 = .minus) (wst : Strand)
+    (hw : wst ≠ .unstranded) (xs : List Nat) (hin : ∀ p ∈ xs, inW w2 p = true)
+    (hm : if wst = .minus then Desc xs else Asc xs) :
+    if compose wst s2 = .minus then Desc (xs.map (toT w2 s2)) else Asc (xs.map (toT w2 s2)) := by
+  have hin' : ∀ p ∈ xs, w2.1 ≤ p ∧ p < w2.2 := by
+    intro p hp; simpa [inW] using hin p hp
+  have key : ∀ (R T : Nat → Nat → Prop), xs.Pairwise R →
+      (∀ a b, w2.1 ≤ a ∧ a < w2.2 → w2.1 ≤ b ∧ b < w2.2 → R a b → T (toT w2 s2 a) (toT w2 s2 b)) →
+      (xs.map (toT w2 s2)).Pairwise T := by
+    intro R T hR hRT
+    rw [List.pairwise_map]
+    exact hR.imp_of_mem (fun {a b} ha hb hab => hRT a b (hin' a ha) (hin' b hb) hab)
+  rcases hs2 with rfl | rfl <;> cases wst
+  · simp only [reduceCtorEq, if_false, compose] at hm ⊢
+    exact key _ _ hm (fun a b ha hb hab => by simp only [toT, reduceCtorEq, if_false]; omega)
+  · simp only [if_true, compose] at hm ⊢
+    exact key _ _ hm (fun a b ha hb hab => by simp only [toT, reduceCtorEq, if_false]; omega)
+  · exact absurd rfl hw
+  · simp only [reduceCtorEq, if_false, compose, if_true] at hm ⊢
+    exact key _ _ hm (fun a b ha hb hab => by simp only [toT, if_true]; omega)
+  · simp only [if_true, compose, reduceCtorEq, if_false] at hm ⊢
+    exact key _ _ hm (fun a b ha hb hab => by simp only [toT, if_true]; omega)
+  · exact absurd rfl hw
+
+theorem blocks_ne_nil (m : Location) (hm : m ≠ .empty) (hwf : wfLocation m = true) : locationBlocks m ≠ [] := by
+  cases m with
+  | empty => exact absurd rfl hm
+  | single b s => simp [locationBlocks]
+  | compound l =>
+    have : l.Canon := by simpa [wfLocation] using hwf
+    exact this.1
+
+theorem basesPlus_ne_nil (L : List Blk) (hne : L ≠ []) (hpos : ∀ x ∈ L, x.1 < x.2) : basesPlus L ≠ [] := by
+  cases L with
+  | nil => exact absurd rfl hne
+  | cons b L =>
+    have := hpos b (by simp)
+    intro h
+    have hm : b.1 ∈ basesPlus (b :: L) := (mem_basesPlus _ _).mpr ⟨b, by simp, Nat.le_refl _, this⟩
+    rw [h] at hm; simp at hm
+
+theorem fitsSeq_iff (l : Location) (n : Nat) : fitsSeq l n = true ↔ ∀ b ∈ locationBlocks l, b.2 ≤ n := by
+  simp [fitsSeq, locBlocks_eq]
+
+/-- second half of the call followed by the extraction -/
+def stage (target : Target) (up : Location) : R (Location × List Char) := do
+  let m ← placeOnTarget up target
+  finishRelocate target m
+
+theorem upOK_ne (c : Location) (places : List (Option Location)) (want : List Nat) (wst : Strand) (up : Location)
+    (h : UpOK c places want wst up) : up ≠ .empty := by
+  intro he
+  have := h.st
+  rw [he] at this
+  simp [locationStrand?] at this
+
+theorem filter_mono (wst : Strand) (xs : List Nat) (f : Nat → Bool)
+    (h : if wst = .minus then Desc xs else Asc xs) :
+    if wst = .minus then Desc (xs.filter f) else Asc (xs.filter f) := by
+  split at h
+  · rename_i hm; rw [if_pos hm]; exact List.Pairwise.filter _ h
+  · rename_i hm; rw [if_neg hm]; exact List.Pairwise.filter _ h
+
+theorem final_chunk (G : List Char) (w2 : Blk) (s2 : Strand) (hs2 : s2 = .plus ∨ s2 = .minus)
+    (hwl : w2.1 < w2.2) (hG2 : w2.2 ≤ G.length) (seqB : List Char) (hlenB : seqB.length = w2.2 - w2.1)
+    (hseqB : seqB = (bases ⟨[w2], s2⟩).map (rdAt G s2))
+    (c : Location) (hc : WF c) (hce : c ≠ .empty) (places : List (Option Location))
+    (hpl : ∀ q ∈ places, ∀ x, q = some x → WF x) (want : List Nat) (wst : Strand)
+    (hcl : composeLevels (locationBases c) (strandOf c) places = some (want, wst))
+    (up : Location) (hup : UpOK c places want wst up) :
+    FinalOK G w2 s2 c places want wst (stage (.chunk w2 s2 seqB) up) := by
+  have hupne := upOK_ne c places want wst up hup
+  have hupWF : WF up := (wf_iff up).mpr hup.wf
+  obtain ⟨m, hm, hcase⟩ := chunkDown_explicit up hupWF hupne w2 s2 hs2 hwl
+  have hupv := wfLocation_valid up hup.wf
+  have hupb := locationBases_eq up wst hup.st
+  have hfilt : ((basesPlus (locationBlocks up)).filter (inW w2)).Perm (want.filter (inW w2)) := by
+    refine List.Perm.filter _ ?_
+    refine (bases_perm_basesPlus _ wst).symm.trans ?_
+    rw [← hupb]; exact hup.perm
+  have hhits := hits_bases w2 s2 hs2 hwl (locationBlocks up) hupv
+  have hs2d : s2 ≠ .unstranded := by rcases hs2 with rfl | rfl <;> simp
+  rcases hcase with ⟨hnil, hme⟩ | ⟨hne, hmne, hmwf, hmst, hmperm⟩
+  · right
+    refine ⟨.empty, [], ?_, okFinal_empty _ _ _ _ _ _ _ _ ?_⟩
+    · subst hme
+      simp [stage, placeOnTarget, hm, bind, Except.bind, finishRelocate, pure, Except.pure]
+    · unfold hitsOf at hnil
+      rw [hnil] at hhits
+      simp only [List.map_nil, basesPlus] at hhits
+      have h0 : (basesPlus (locationBlocks up)).filter (inW w2) = [] := by
+        have := hhits.symm.eq_nil
+        simpa using this
+      rw [h0] at hfilt
+      exact hfilt.symm.eq_nil
+  · have hmem : ∀ r ∈ locationBlocks m, ∃ b ∈ locationBlocks up,
+        max w2.1 b.1 < min w2.2 b.2 ∧ r = relBlk w2 s2 b := by
+      intro r hr
+      have := hmperm.mem_iff.mp hr
+      obtain ⟨b, hb, rfl⟩ := List.mem_map.mp this
+      unfold hitsOf at hb
+      rw [List.mem_filter] at hb
+      exact ⟨b, hb.1, ((overlapKernel_iff w2 b).mp hb.2).2.2, rfl⟩
+    have hfit : ∀ r ∈ locationBlocks m, r.2 ≤ w2.2 - w2.1 := by
+      intro r hr
+      obtain ⟨b, _, hov, rfl⟩ := hmem r hr
+      exact (relBlk_props w2 s2 b hov).2
+    have hpos : ∀ r ∈ locationBlocks m, r.1 < r.2 := by
+      intro r hr
+      obtain ⟨b, _, hov, rfl⟩ := hmem r hr
+      exact relBlk_pos w2 s2 b hov
+    have hP1 : (basesPlus (locationBlocks m)).Perm ((want.filter (inW w2)).map (toT w2 s2)) :=
+      (basesPlus_perm hmperm).trans (hhits.trans (hfilt.map _))
+    have hmb : (m == Location.empty) = false := by simpa using hmne
+    have hfits : fitsSeq m seqB.length = true := by
+      rw [fitsSeq_iff, hlenB]; exact hfit
+    have hplace : placeOnTarget up (.chunk w2 s2 seqB) = .ok m := by
+      simp [placeOnTarget, hm, bind, Except.bind, hfits, pure, Except.pure]
+    by_cases hwu : wst = .unstranded
+    · left
+      refine ⟨hwu, ?_⟩
+      have hst' : locationStrand? m = some .unstranded := by
+        rw [hmst, strandOf_of up wst hup.st, hwu, compose_unstranded_left]
+      have := extractSeq_unstranded seqB m hst'
+      obtain ⟨e, he⟩ := (ans_none_iff _).mp this
+      simp [stage, hplace, bind, Except.bind, finishRelocate, hmb, Target.seq, he]
+    · right
+      have hmst' : locationStrand? m = some (compose wst s2) := by
+        rw [hmst, strandOf_of up wst hup.st]
+      have hdir : compose wst s2 ≠ .unstranded := compose_dir _ _ hwu hs2d
+      have hex := extractSeq_eq seqB m _ hmst' hdir (by rw [hlenB]; exact hfit)
+      refine ⟨m, (locationBases m).map (rdAt seqB (compose wst s2)), ?_, ?_⟩
+      · simp [stage, hplace, bind, Except.bind, finishRelocate, hmb, Target.seq, hex, pure, Except.pure]
+      · have hbne : basesPlus (locationBlocks m) ≠ [] :=
+          basesPlus_ne_nil _ (blocks_ne_nil m hmne hmwf) hpos
+        have hEne : want.filter (inW w2) ≠ [] := by
+          intro h
+          rw [h] at hP1
+          exact hbne (by simpa using hP1.eq_nil)
+        have hmbases := locationBases_eq m _ hmst'
+        refine okFinal_loc G w2 s2 c places want wst m _ hEne hmne hmwf hmst' ?_ ?_ hfit
+        · rw [hmbases]
+          exact (bases_perm_basesPlus _ _).trans hP1
+        · intro hall hw hcs
+          have mw := want_mono c hc hce places hpl want wst hcl hall hw
+          have mf := filter_mono wst want (inW w2) mw
+          have mt := mono_toT w2 s2 hs2 wst hw (want.filter (inW w2))
+            (fun p hp => (List.mem_filter.mp hp).2) mf
+          have hE := (exact_of_perm m _ hmst' hmwf hpos _ hP1 mt).1
+          refine ⟨hE, ?_⟩
+          have hin : ∀ i ∈ want.filter (inW w2), i < G.length := by
+            intro i hi
+            have := (List.mem_filter.mp hi).2
+            simp only [inW, Bool.and_eq_true, decide_eq_true_eq] at this
+            omega
+          rw [readSeq_eq G _ wst hin, hE, List.map_map]
+          congr 1
+          apply List.map_congr_left
+          intro p hp
+          have := (List.mem_filter.mp hp).2
+          simp only [inW, Bool.and_eq_true, decide_eq_true_eq] at this
+          rw [Function.comp_apply, hseqB]
+          exact (rdAt_chunk G w2 s2 hs2d wst hw p this.1 this.2).symm
+
+theorem final_chrom (G : List Char)
+    (c : Location) (places : List (Option Location)) (want : List Nat) (wst : Strand)
+    (up : Location) (hup : UpOK c places want wst up)
+    (hpos : ∀ x ∈ locationBlocks up, x.1 < x.2) (hin : ∀ p ∈ want, p < G.length) :
+    FinalOK G (0, G.length) .plus c places want wst (stage (.chrom G) up) := by
+  have hupne := upOK_ne c places want wst up hup
+  have hupb := locationBases_eq up wst hup.st
+  have hbp : (basesPlus (locationBlocks up)).Perm want := by
+    refine (bases_perm_basesPlus _ wst).symm.trans ?_
+    rw [← hupb]; exact hup.perm
+  have hfit : ∀ r ∈ locationBlocks up, r.2 ≤ G.length := by
+    intro r hr
+    have h1 := hpos r hr
+    have h2 : r.2 - 1 ∈ basesPlus (locationBlocks up) := (mem_basesPlus _ _).mpr ⟨r, hr, by omega, by omega⟩
+    have := hin _ (hbp.mem_iff.mp h2)
+    omega
+  have hfits : fitsSeq up G.length = true := (fitsSeq_iff _ _).mpr hfit
+  have hb : (up == Location.empty) = false := by simpa using hupne
+  have hplace : placeOnTarget up (.chrom G) = .ok up := by
+    simp [placeOnTarget, hb, hfits, pure, Except.pure]
+  by_cases hwu : wst = .unstranded
+  · left
+    refine ⟨hwu, ?_⟩
+    have := extractSeq_unstranded G up (by rw [hup.st, hwu])
+    obtain ⟨e, he⟩ := (ans_none_iff _).mp this
+    simp [stage, hplace, bind, Except.bind, finishRelocate, hb, Target.seq, he]
+  · right
+    have hex := extractSeq_eq G up wst hup.st hwu hfit
+    refine ⟨up, (locationBases up).map (rdAt G wst), ?_, ?_⟩
+    · simp [stage, hplace, bind, Except.bind, finishRelocate, hb, Target.seq, hex, pure, Except.pure]
+    · have hins : want.filter (inW (0, G.length)) = want := by
+        rw [List.filter_eq_self]
+        intro p hp
+        have := hin p hp
+        simp [inW, this]
+      have hmap : want.map (toT (0, G.length) .plus) = want := by
+        have : ∀ p ∈ want, toT (0, G.length) .plus p = id p := by intro p _; simp [toT]
+        rw [List.map_congr_left this, List.map_id]
+      have hwne : want ≠ [] := by
+        intro h
+        rw [h] at hbp
+        exact basesPlus_ne_nil _ (blocks_ne_nil up hupne hup.wf) hpos hbp.eq_nil
+      refine okFinal_loc G (0, G.length) .plus c places want wst up _ (by rw [hins]; exact hwne) hupne hup.wf
+        (by rw [compose_plus_right]; exact hup.st) (by rw [hins, hmap]; exact hup.perm) ?_
+        (by intro r hr; simpa using hfit r hr)
+      intro hall hw _
+      have he := hup.exact hall hw
+      rw [hins, hmap]
+      exact ⟨he, by rw [readSeq_eq G want wst hin, he]⟩
 
 end BioCantor.Proofs.Reloc
